@@ -213,7 +213,7 @@ func buildEnv(cs *childSpec, rs roundSpec) (*env, []string) {
 		if len(info.Axes) > 0 {
 			e.varFonts = append(e.varFonts, sf.Slot)
 		}
-		if kind == "bitmap" || kind == "sbix" {
+		if kind == "bitmap" || kind == "sbix" || kind == "sbix-dupe" {
 			e.bmpFonts = append(e.bmpFonts, sf.Slot)
 		}
 		return true
